@@ -728,6 +728,29 @@ type TimeBasedConnectionConfig struct {
 	RequiredFeatures graphql.FeatureSet
 }
 
+// appendEdgeSlice appends the elements of one range query's result to edges. A nil result (untyped
+// or typed) is an empty result. Anything else that is not a slice - for example a promise that a
+// promise resolved to - is an error, as it is for other connections, rather than a panic inside
+// reflect (which on the promise path happens in a goroutine and ends the process) or, for a channel
+// that happens to be empty, a silently empty result.
+func appendEdgeSlice(edges []any, queryEdges any) ([]any, error) {
+	v := reflect.ValueOf(queryEdges)
+	switch v.Kind() {
+	case reflect.Invalid:
+		return edges, nil
+	case reflect.Slice:
+		for i := 0; i < v.Len(); i++ {
+			edges = append(edges, v.Index(i).Interface())
+		}
+		return edges, nil
+	case reflect.Chan, reflect.Func, reflect.Interface, reflect.Map, reflect.Ptr, reflect.UnsafePointer:
+		if v.IsNil() {
+			return edges, nil
+		}
+	}
+	return nil, fmt.Errorf("unexpected non-slice type %T for edges", queryEdges)
+}
+
 // TimeBasedConnection creates a new connection for edges sorted by time. In addition to the
 // standard first, last, after, and before fields, the connection will have atOrAfterTime and
 // beforeTime fields, which can be used to query a specific time range.
@@ -791,25 +814,16 @@ func TimeBasedConnection(config *TimeBasedConnectionConfig) *graphql.FieldDefini
 					return nil, nil, err
 				} else if promise, ok := queryEdges.(graphql.ResolvePromise); ok {
 					promises = append(promises, promise)
-				} else {
-					v := reflect.ValueOf(queryEdges)
-					if v.Kind() == reflect.Invalid || v.IsNil() {
-						continue
-					}
-					for i := 0; i < v.Len(); i++ {
-						edges = append(edges, v.Index(i).Interface())
-					}
+				} else if edges, err = appendEdgeSlice(edges, queryEdges); err != nil {
+					return nil, nil, err
 				}
 			}
 			if len(promises) > 0 {
 				return join(ctx.Context, promises, func(v []any) (any, error) {
 					for _, queryEdges := range v {
-						v := reflect.ValueOf(queryEdges)
-						if v.Kind() == reflect.Invalid || v.IsNil() {
-							continue
-						}
-						for i := 0; i < v.Len(); i++ {
-							edges = append(edges, v.Index(i).Interface())
+						var err error
+						if edges, err = appendEdgeSlice(edges, queryEdges); err != nil {
+							return nil, err
 						}
 					}
 					return edges, nil
